@@ -68,6 +68,11 @@ def int_pool(rng, extra):
             -2 ** 63 + 1, -2 ** 63, -2 ** 63 - 1, 2 ** 64 - 1, 2 ** 64, 2 ** 64 + 1, -2 ** 64,
             10 ** 18, 10 ** 19, 10 ** 30, -10 ** 30, 10 ** 30 + 1, 2 ** 127 - 1, 2 ** 40 * 3 ** 5,
             (2 ** 31 - 1) * (2 ** 31 - 1), (2 ** 63) * 3, 6 * 10 ** 20]
+    # perfect squares and their neighbours on both sides of 2^53 (where a root taken through a double starts to round)
+    # and of the fixnum boundary
+    for k in (94906265, 94906266, 94906267, 1000000007, 2147483647, 2147483648, 3037000499, 3037000500, 4294967296,
+              10 ** 10 + 19, 2 ** 40 + 1):
+        base += [k * k - 1, k * k, k * k + 1]
     for _ in range(extra):
         bits = rng.choice([8, 16, 31, 32, 33, 62, 63, 64, 65, 100, 200])
         v = rng.getrandbits(bits) | (1 << (bits - 1))
